@@ -204,7 +204,12 @@ def _closure(lp, seeds):
     return derived
 
 
-def param_not_mutated(relpath, qualname, param, typ, prop, clause, callee_summaries=None):
+# functions that may return their argument itself or a view of it (the result aliases the argument)
+VIEW_FUNCS = {"asarray", "asanyarray", "ascontiguousarray", "reshape", "ravel", "squeeze", "atleast_1d", "atleast_2d", "transpose",
+              "expand_dims", "broadcast_to", "swapaxes", "moveaxis", "view"}
+
+
+def param_not_mutated(relpath, qualname, param, typ, prop, clause, callee_summaries=None, may_alias=False):
     """Obligation (assigns \\nothing on `param`): on no path is the caller's object mutated — no attribute / subscript
     store through it, no mutator method of its type, and it is only passed to callees known not to mutate — unless the
     name has been rebound to a fresh copy first. Aliases `q = param` are tracked."""
@@ -254,6 +259,8 @@ def param_not_mutated(relpath, qualname, param, typ, prop, clause, callee_summar
                         elif isinstance(st.value, ast.Attribute) and isinstance(st.value.value, ast.Name) and st.value.value.id in live \
                                 and typ == "ase.Atoms" and st.value.attr in ATOMS_INTERNALS:
                             live.add(t.id)  # e.g. cell = atoms.cell  (a view of the internals)
+                        elif may_alias and _may_alias(st.value, live):
+                            live.add(t.id)  # x = live.method(...) / np.asarray(live...) / live.attr[...] : may be the object itself
                         else:
                             live.discard(t.id)
                 continue
@@ -268,6 +275,28 @@ def param_not_mutated(relpath, qualname, param, typ, prop, clause, callee_summar
                 if isinstance(n, ast.expr):
                     check_expr(n, live)
         return live
+
+    def _root(e):
+        while isinstance(e, (ast.Attribute, ast.Subscript)):
+            e = e.value
+        return e
+
+    def _may_alias(v, live):
+        """conservative: the value may be the caller's object or a view into it"""
+        if isinstance(v, (ast.Attribute, ast.Subscript)):
+            r = _root(v)
+            return isinstance(r, ast.Name) and r.id in live
+        if isinstance(v, ast.Call):
+            f = v.func
+            if isinstance(f, ast.Attribute):
+                r = _root(f.value)
+                if isinstance(r, ast.Name) and r.id in live and f.attr not in FRESH_METHODS:
+                    return True  # a method of the object that is not known to return a fresh copy
+                if f.attr in VIEW_FUNCS and any(_may_alias(a, live) or (isinstance(a, ast.Name) and a.id in live) for a in v.args):
+                    return True
+            if isinstance(f, ast.Name) and f.id in VIEW_FUNCS and any(_may_alias(a, live) or (isinstance(a, ast.Name) and a.id in live) for a in v.args):
+                return True
+        return False
 
     def check_store(t, live):
         base = t
